@@ -42,14 +42,14 @@ func Main() {
 	r.Cases("corpus-vote", len(voteCorpus()), core.Opts{Workers: 16}, func(c *core.Case) { corpusVote(c) })
 	r.Cases("corpus-proposal", len(proposalCorpus()), core.Opts{Workers: 16}, func(c *core.Case) { corpusProposal(c) })
 	r.Cases("corpus-tx", len(txCorpus()), core.Opts{Workers: 16}, func(c *core.Case) { corpusTx(c) })
-	r.Cases("cross", r.N(200, 20000), core.Opts{Workers: 16}, crossCase)
-	r.Cases("rand-vote", r.N(900, 90000), core.Opts{Workers: 16}, randVote)
-	r.Cases("rand-proposal", r.N(500, 50000), core.Opts{Workers: 16}, randProposal)
-	r.Cases("rand-tx", r.N(600, 60000), core.Opts{Workers: 16}, randTx)
+	r.Cases("cross", r.N(200, 10000), core.Opts{Workers: 16}, crossCase)
+	r.Cases("rand-vote", r.N(900, 45000), core.Opts{Workers: 16}, randVote)
+	r.Cases("rand-proposal", r.N(500, 25000), core.Opts{Workers: 16}, randProposal)
+	r.Cases("rand-tx", r.N(600, 30000), core.Opts{Workers: 16}, randTx)
 	child := core.Opts{Procs: 8, HangIsViolation: true, StallSec: 120, MemMB: 4096}
-	r.Cases("sig-structured", r.N(48, 1200), child, sigStructured)
-	r.Cases("sig-random", r.N(71*6, 71*150), child, sigRandom)
-	r.Cases("sig65", r.N(600, 40000), child, sig65)
+	r.Cases("sig-structured", r.N(48, 600), child, sigStructured)
+	r.Cases("sig-random", r.N(71*6, 71*75), child, sigRandom)
+	r.Cases("sig65", r.N(600, 20000), child, sig65)
 
 	r.Floor("vote_controls_accepted", 500)
 	r.Floor("proposal_controls_accepted", 300)
@@ -294,6 +294,9 @@ func genProposal(r *rand.Rand) *types.Proposal {
 	p := &types.Proposal{Height: genHeight(r), Round: genRound(r), POLRound: genRound(r), Timestamp: genTime(r)}
 	if r.Intn(8) != 0 {
 		p.POLBlockID = genBlockID(r)
+		if r.Intn(3) != 0 {
+			p.POLBlockID.PartsHeader.Total = uint32(1 + r.Intn(40)) // within what Proposal.ValidateBasic admits, so that the wire path is exercised
+		}
 	}
 	return p
 }
